@@ -32,6 +32,16 @@ class Gen:
             if k < 0.72: return ('TP', r.randrange(len(DURS)))
             if k < 0.8: return self.plain_enum()
             return self.adapted_enum()
+        if depth <= 1 and r.random() < 0.05:
+            # a sequence (values: 0..40 elements) of structs mixing zero-size members with members that carry data: the repeat-collapsing
+            # of long sequences must look at every member
+            zs = r.choice([('T', [], False), ('T', [('T', [], False)], False)])
+            fields = r.choice([[('m0', ('A', r.choice('il'))), ('m1', zs)], [('m0', zs), ('m1', ('A', r.choice('sB')))], [('m0', zs), ('m1', zs)], [('m0', ('A', 'i')), ('m1', zs), ('m2', zs)]])
+            name = self.fresh('St')
+            self.defs.append('struct %s { %s };' % (name, ' '.join('%s %s%s;' % (self.cpp_decl(t, f)) for f, t in fields)))
+            args = ''.join(', ' + f for f, _ in fields)
+            for m in ('SERIALIZABLE', 'DESERIALIZABLE', 'TAG'): self.defs.append('MSERIALIZE_MAKE_STRUCT_%s(%s%s)' % (m, name, args))
+            return ('Q', r.choice(['vector', 'list', 'deque']), ('S', name, fields), None)
         k = r.randrange(7)
         if k == 0 or k == 1:
             kind = r.choice(SEQ_KINDS)
